@@ -30,6 +30,10 @@ def cases(ctx):
                 continue
             if not thorough or ctx.mine(i):
                 yield {'ex': ex_i, 'name': ex.name, 'inst': inst}
+                if ex.name in ('cfg_cyk_matrix', 'cfg_leftmost_derivation', 'cfg_rightmost_derivation') and i % 5 == 0:
+                    u = capital_outside_ascii(rng, inst)
+                    if u is not None:
+                        yield {'ex': ex_i, 'name': ex.name, 'inst': u}
     # fixed witnesses of the recorded (open) findings, so that each is exercised on every run
     names = [e.name for e in EX.ALL]
     yield {'ex': names.index('dfa2regexp'), 'name': 'dfa2regexp', 'inst': {'D': {'Q': ['q0', 'q1'], 'Sigma': ['0', '1'], 'q0': 'q0', 'F': ['q1'],
@@ -54,6 +58,24 @@ def cases(ctx):
     yield {'ex': -1, 'name': 'shipped-notebooks', 'inst': {}}
 
 
+def capital_outside_ascii(rng, inst):
+    """the same grammar with one variable renamed to a capital letter outside A-Z (str.isupper() holds, so the simple grammar format, the
+    CYK routines and the derivation checker all treat it as a variable).  The Lean text parsers classify ASCII letters only, so these cases
+    are judged on the library alone (own answer handed to its checker; count `...:checked-on-code-only`)."""
+    G = inst['G']
+    free = [c for c in 'ΣΩΔΓΛΞΠΦΨÄÖÜÉÑЖ' if c not in G['V']]
+    if not free or not G['V']:
+        return None
+    old, new = rng.choice(G['V']), rng.choice(free)
+    ren = lambda x: new if x == old else x
+    G2 = {'V': [ren(v) for v in G['V']], 'Sigma': list(G['Sigma']), 'S': ren(G['S']),
+          'R': [[ren(l), i, [[k, ren(x) if k == 'v' else x] for k, x in r]] for l, i, r in G['R']]}
+    out = dict(inst)
+    out['G'] = G2
+    out['uni'] = True
+    return out
+
+
 def own_answer(c):
     ex = EX.ALL[c['ex']]
     sc = EX.Scratch()
@@ -70,6 +92,9 @@ def lean_requests(c):
     own = own_answer(c)
     c['_own'] = own
     if 'ok' not in own:
+        return []
+    if c['inst'].get('uni'):
+        c['_obj'] = c['_key'] = c['_text'] = False
         return []
     try:
         r = ex.lean(c['inst'], own['ok'])
@@ -133,6 +158,8 @@ def judge(ctx, c, answers):
     if c.get('_text') and answers and verdict != 'RAISED' and (answers[-1].get('ok') == 'OK') != (verdict == 'OK'):
         ctx.violation('correspondence:text:' + ex.name, {'case': sub, 'answer': own['ok'], 'impl': verdict, 'model': answers[-1]}, no_input=True)
     ctx.count('%s:%s' % (ex.name, verdict))
+    if c['inst'].get('uni'):
+        ctx.count('%s:capital-outside-A-Z:checked-on-code-only' % ex.name)
     ctx.record('c13/' + core.digest(sub), verdict)
     ctx.case({'name': c['name'], 'inst': c['inst']}, True)
 
